@@ -49,6 +49,9 @@ TRUSTED_BASE = [
     "C10_smiles_roundtrip_under_rdkit_contract, monitored by the oracle on every molecule case",
 ]
 ASSUMPTIONS = [
+    "the model's attribute records do not distinguish a missing dictionary key from a key holding None (get_rc writes "
+    "standard_order=None for an H-H bond that had no standard_order): core + explicit_hydrogen exports of hand-made ITS graphs "
+    "with such a bond are outside the model's domain and are seen by the oracle only (counted under outside_model_domain)",
     "labels, element symbols: ASCII; node ids: non-negative ints; hcount/charge/atom_map: ints; bond orders: half-integers",
     "domain of C10_gml_roundtrip(_reindex) / C10_two_routes_centre(_reindex) = its_ok: unique ids, one entry per bond, typesGH present with "
     "the same element (a symbol in [A-Za-z*]+) in both halves, element/charge attributes = reactant half, (before, after) orders from "
@@ -541,6 +544,8 @@ def coq_case(case):
             return clistL(["run_transform %s %s %s %s %s" % (enc_gr(case["L"]), enc_gr(case["R"]), enc_gr(case["K"]),
                                                             cbool(a), cbool(b)) for a, b in case["cfgs"]])
         if k == "its":
+            if any(c[0] and c[2] for c in case["cfgs"]) and _hh_without_std(case["its"]):
+                return None      # see _hh_without_std: outside the model's domain (oracle only)
             g = enc_gr(case["its"])
             return "(let g := %s in %s)" % (g, clistL(["run_its4 g %s %s %s" % (cbool(a), cbool(b), cbool(c))
                                                         for a, b, c in case["cfgs"]]))
@@ -555,6 +560,15 @@ def coq_case(case):
     except Outside:
         return None
     raise AssertionError(k)
+
+
+def _hh_without_std(g):
+    """an H-H bond without standard_order in a hand-made ITS: get_rc copies it with the key PRESENT and the value None,
+    and the explicit_hydrogen context then skips it (None == 0 is False) while a MISSING key defaults to 0.  The model's
+    attribute records do not distinguish a missing key from a key holding None, so core + explicit_hydrogen exports of such
+    graphs are outside its domain (ITSGraph always writes standard_order; only random inconsistent ITS graphs get here)."""
+    els = {n: a.get("element") for n, a in g["nodes"]}
+    return any(els.get(u) == "H" and els.get(v) == "H" and a.get("standard_order") is None for u, v, a in g["edges"])
 
 
 def clistL(terms):
